@@ -217,6 +217,10 @@ class FJSP(Adapter):
             hand = hand if nh is None else hand[:nh] if nh >= 0 else hand[nh:]
             for k, cols in enumerate(_columns(rnd, n, self._pool(M, tier), len(hand) + nr, fixed=hand)):
                 insts.append(_inst(J, M, P, nops, cols, wait, self.jssp, padcol=self._padcol(M, k)))
+        # long operations (benchmark-style durations): completion times beyond any "not scheduled yet" sentinel the
+        # implementation may use for its start/finish tensors
+        for wait in (False, True):
+            insts.append(_inst(2, 2, 4, (2, 1), ((6000, 0), (6000, 0), (0, 5000)), wait, self.jssp, padcol=self._padcol(2, 0)))
         insts += self._drawn(tier, seed)
         return with_ids(insts)
 
